@@ -188,6 +188,45 @@ func followUps(i int, x *CaseResult, what string, t *wmpt.WeightedMerkleTrie, in
 	}
 	var w uint64
 	step("Root/Weight", func() { _ = t.Root(); w = t.Weight() })
+	// keys that FOLLOW the short-node keys at the top of the loaded trie (random keys leave the path at the first nibble):
+	// the first 64 nibbles of the root's short key, or of (child index, embedded short key) for a branch root
+	var follow [][]byte
+	step("Serialize(root)", func() {
+		ser, err := t.GetRoot().Serialize()
+		if err != nil {
+			return
+		}
+		p := &wmpt.PersistNodeBase{}
+		if cbor.Unmarshal(ser, p) != nil {
+			return
+		}
+		var paths [][]byte
+		if p.Short != nil {
+			paths = append(paths, p.Short.Key)
+		}
+		if p.Branch != nil {
+			for ci, c := range p.Branch.Children {
+				if len(c) > 72 {
+					paths = append(paths, append([]byte{byte(ci)}, c[72:]...))
+				}
+			}
+		}
+		for _, nb := range paths {
+			k := make([]byte, 32)
+			for j := 0; j < 64 && j < len(nb); j++ {
+				if j%2 == 0 {
+					k[j/2] |= nb[j] << 4
+				} else {
+					k[j/2] |= nb[j] & 15
+				}
+			}
+			follow = append(follow, k)
+		}
+	})
+	for _, fk := range follow {
+		key := fk
+		step("GetPath(key along the top short node)", func() { _, _ = t.GetPath([][]byte{key}) })
+	}
 	step("GetBlockProof(1)", func() {
 		if key, _, err := t.GetBlockProof(1); err == nil && len(key) == 32 {
 			k2 = key
@@ -217,6 +256,12 @@ func followUps(i int, x *CaseResult, what string, t *wmpt.WeightedMerkleTrie, in
 	step("Update(owner of block 1)", func() { _ = t.Update(append([]byte(nil), k2...), []byte{4, 5}, 2) })
 	step("Delete", func() { _, _ = t.Delete(append([]byte(nil), k2...)) })
 	step("Update(nil)", func() { _ = t.Update(append([]byte(nil), k3...), nil, 0) })
+	for _, fk := range follow {
+		key := fk
+		step("Delete(key along the top short node)", func() { _, _ = t.Delete(append([]byte(nil), key...)) })
+		step("Update(key along the top short node)", func() { _ = t.Update(append([]byte(nil), key...), []byte{7}, 1) })
+		step("Update(nil, key along the top short node)", func() { _ = t.Update(append([]byte(nil), key...), nil, 0) })
+	}
 	step("Root after the changes", func() { _ = t.Root() })
 	step("GetPath after the changes", func() { _, _ = t.GetPath([][]byte{k1, k2}) })
 }
@@ -532,7 +577,8 @@ func cchain(r *rand.Rand, depth, kind int) csub {
 }
 
 // craftedExports: hash-consistent exports of shapes the trie's own operations never build — short-node keys of every
-// length around and beyond the 64 nibbles of a key (1, 2, 63, 64, 65, 70, 200), value nodes above the full depth, keys
+// length around and beyond the 64 nibbles of a key (1, 2, 63, 64, 65, 70, 200), value nodes above the full depth,
+// branches / short nodes / branches under branches BELOW the full depth, keys
 // holding bytes that are not nibbles (rejected since fix f270208), short nodes under short nodes, small single-child
 // chains. The importers accept the others (they check hashes, not shapes); whatever runs next on the loaded trie must cope.
 func craftedExports(r *rand.Rand, idx int) []csub {
@@ -553,6 +599,12 @@ func craftedExports(r *rand.Rand, idx int) []csub {
 		cshort(nibs(2), cbranch(map[int]csub{3: v(), 9: cshort(nibs(l-1), v())})),
 		cchain(r, 3+r.Intn(12), idx%3), // (deep ones: suite c15deep; the model re-hashes quadratically)
 	}
+	// nodes BELOW the full key depth of 64 nibbles: a branch, a short node, a branch under a branch
+	out = append(out,
+		cshort(nibs(64), cbranch(map[int]csub{3: v(), 9: v()})),
+		cshort(nibs(64), cshort(nibs(2), v())),
+		cbranch(map[int]csub{r.Intn(16): cshort(nibs(62), cbranch(map[int]csub{1: cbranch(map[int]csub{4: v(), 7: v()}), 12: v()}))}),
+	)
 	bad := nibs(l)
 	bad[r.Intn(len(bad))] = byte(16 + r.Intn(240))
 	out = append(out, cshort(bad, v()))
